@@ -38,7 +38,7 @@ import (
 
 type qact struct {
 	Kind string `json:"k"`           // query reply keyr key
-	Q    string `json:"q,omitempty"` // fg bg col cpr clip
+	Q    string `json:"q,omitempty"` // fg bg col cpr clip size
 	M    int    `json:"m"`           // query: 0 early 1 prompt 2 never
 	V    int    `json:"v"`
 	Two  bool   `json:"two,omitempty"`
@@ -56,11 +56,22 @@ type qcaseJS struct {
 	Class string  `json:"class,omitempty"`
 	Kind  string  `json:"kind"`
 	Runs  int     `json:"runs"`
+	// the first action (a size request answered early) is the request New itself makes
+	Startup bool   `json:"first_action_is_the_size_request_of_New,omitempty"`
+	Note    string `json:"note,omitempty"`
 }
 
-var qKinds = []string{"fg", "bg", "col", "cpr", "clip"}
+// "size" is the request reportWinsize makes when VAXIS_FORCE_XTWINOPS is set and the terminal
+// reports its size in characters and in pixels (CSI 14 t / CSI 18 t): issued through
+// Resize() + Render() (or by New), answered by the input goroutine through chSizeDone.  Its
+// value is rows*256+cols of the Resize event that Render posts, -1 = no Resize event: the
+// resize request was lost.
+var qKinds = []string{"fg", "bg", "col", "cpr", "clip", "size"}
 
-var qCoqKind = map[string]string{"fg": "KFg", "bg": "KBg", "col": "KCol", "cpr": "KCpr", "clip": "KClip"}
+// kinds a reply at rest is generated for (a size report at rest is not: see queryStream)
+var qReplyKinds = qKinds[:5]
+
+var qCoqKind = map[string]string{"fg": "KFg", "bg": "KBg", "col": "KCol", "cpr": "KCpr", "clip": "KClip", "size": "KSize"}
 
 var qQuery = map[string]string{
 	"fg":   "\x1b]10;?\x07",
@@ -68,9 +79,10 @@ var qQuery = map[string]string{
 	"col":  "\x1b]4;1;?\x1b\\",
 	"cpr":  "\x1b[6n",
 	"clip": "\x1b]52;c;?\x1b\\",
+	"size": "\x1b[14t\x1b[18t",
 }
 
-func qTimed(k string) bool { return k == "cpr" || k == "clip" }
+func qTimed(k string) bool { return k == "cpr" || k == "clip" || k == "size" }
 
 func qReply(k string, v int) string {
 	rgb := fmt.Sprintf("rgb:%04x/%04x/%04x", (v>>16)&0xff, (v>>8)&0xff, v&0xff)
@@ -85,6 +97,9 @@ func qReply(k string, v int) string {
 		return fmt.Sprintf("\x1b[%d;%dR", v/256, v%256)
 	case "clip":
 		return "\x1b]52;c;" + base64.StdEncoding.EncodeToString([]byte(strconv.Itoa(v))) + "\x1b\\"
+	case "size":
+		rows, cols := v/256, v%256
+		return fmt.Sprintf("\x1b[4;%d;%dt\x1b[8;%d;%dt", rows*16, cols*8, rows, cols)
 	}
 	panic("kind " + k)
 }
@@ -148,7 +163,7 @@ func parked(m gsnap, id int) bool {
 	if !(strings.Contains(h, "[chan receive") || strings.Contains(h, "[select")) {
 		return false
 	}
-	for _, fn := range []string{"QueryForeground", "QueryBackground", "QueryColor", "CursorPosition", "ClipboardPop"} {
+	for _, fn := range []string{"QueryForeground", "QueryBackground", "QueryColor", "CursorPosition", "ClipboardPop", "reportWinsize"} {
 		if strings.Contains(b, "vaxis.(*Vaxis)."+fn+"(") {
 			return true
 		}
@@ -229,13 +244,50 @@ type qrun struct {
 	mu      sync.Mutex
 	early   []byte // query the hook waits for
 	reply   string
+	esize   int // early size request: the size the reply reports (0: not a size request)
 	blocked []*querier
 	notes   []string
+	sizes   []int // Resize events seen by settle since the action began
+}
+
+// lateConsole: a console whose Write returns late (a slow tty, or the writing goroutine being
+// descheduled): after is called once the bytes have gone out and been answered
+type lateConsole struct {
+	*hx.FakeConsole
+	mu    sync.Mutex
+	after func(p []byte)
+}
+
+func (c *lateConsole) Write(p []byte) (int, error) {
+	n, err := c.FakeConsole.Write(p)
+	c.mu.Lock()
+	f := c.after
+	c.mu.Unlock()
+	if f != nil {
+		f(p)
+	}
+	return n, err
+}
+
+func (c *lateConsole) setAfter(f func(p []byte)) {
+	c.mu.Lock()
+	c.after = f
+	c.mu.Unlock()
+}
+
+func sizeRc(sizes []int) int {
+	switch len(sizes) {
+	case 0:
+		return -1
+	case 1:
+		return sizes[0]
+	}
+	return -7
 }
 
 func (r *qrun) hook(p []byte) {
 	r.mu.Lock()
-	q, rep := r.early, r.reply
+	q, rep, esize := r.early, r.reply, r.esize
 	if q != nil && bytes.Contains(p, q) {
 		r.early = nil
 	} else {
@@ -246,6 +298,23 @@ func (r *qrun) hook(p []byte) {
 		return
 	}
 	r.fc.InjectString(rep)
+	if esize != 0 {
+		// the size report carries its value in nextSize, not in the channel: wait until the input
+		// goroutine has stored it (the send on chSizeDone follows at once; waitRest covers it)
+		dl := time.Now().Add(lw())
+		for {
+			st := r.vx.VerifC03State()
+			if st.NextSize.Rows == esize/256 && st.NextSize.Cols == esize%256 {
+				break
+			}
+			if time.Now().After(dl) {
+				expired++
+				r.notes = append(r.notes, "early size report: nextSize never changed")
+				break
+			}
+			time.Sleep(50 * time.Microsecond)
+		}
+	}
 	// the library handles the reply while the caller is still inside Write
 	if !waitRest(r.base, true, lw()) {
 		r.notes = append(r.notes, "early reply: library did not come to rest")
@@ -282,6 +351,12 @@ func (r *qrun) start(idx int, k string) *querier {
 			} else {
 				q.res <- -4
 			}
+		case "size":
+			// a resize request from this goroutine, then the frame that serves it; what came of
+			// it is the Resize event (or its absence) the driver finds in the queue
+			r.vx.Resize()
+			r.vx.Render()
+			q.res <- 0
 		}
 	}()
 	q.id = <-ready
@@ -377,6 +452,9 @@ func (r *qrun) settle() []int {
 				if k, ok := ev.(vaxis.Key); ok {
 					keys = append(keys, keyCode(k))
 				}
+				if z, ok := ev.(vaxis.Resize); ok {
+					r.sizes = append(r.sizes, z.Rows*256+z.Cols)
+				}
 			default:
 				break drain
 			}
@@ -404,32 +482,96 @@ func (r *qrun) released() [][2]int {
 	return rel
 }
 
-func runQueryScenario(acts []qact) ([]qobsT, string) {
+func hasSize(acts []qact) bool {
+	for _, a := range acts {
+		if a.Q == "size" {
+			return true
+		}
+	}
+	return false
+}
+
+// startup: acts[0] is a size request answered early, and it is the one New itself makes (the
+// console's Write of that request returns only after the library has handled the answer)
+func runQueryScenario(acts []qact, startup bool) ([]qobsT, string) {
 	base := map[int]bool{}
 	m0, _ := snapshot()
 	for id := range m0 {
 		base[id] = true
 	}
-	fc := hx.NewFakeConsole(hx.Profile{Rows: 5, Cols: 10, CursorStyleReply: -1, Osc4: true, Osc10: true, Osc11: true})
-	vx, err := vaxis.New(vaxis.Options{WithConsole: fc, NoSignals: true})
+	prof := hx.Profile{Rows: 5, Cols: 10, CursorStyleReply: -1, Osc4: true, Osc10: true, Osc11: true}
+	opts := vaxis.Options{NoSignals: true}
+	withSize := hasSize(acts)
+	var lc *lateConsole
+	if withSize {
+		// the terminal reports its size in characters and pixels and the application opted in:
+		// reportWinsize asks the terminal instead of the tty driver
+		prof.ReportSize = true
+		os.Setenv("VAXIS_FORCE_XTWINOPS", "1")
+	}
+	if startup {
+		prof.Rows, prof.Cols = acts[0].V/256, acts[0].V%256
+	}
+	fc := hx.NewFakeConsole(prof)
+	opts.WithConsole = fc
+	if startup {
+		lc = &lateConsole{FakeConsole: fc}
+		lc.setAfter(func(p []byte) {
+			if bytes.Equal(p, []byte(qQuery["size"])) {
+				time.Sleep(300 * time.Microsecond)
+				waitRest(base, true, lw())
+			}
+		})
+		opts.WithConsole = lc
+	}
+	vx, err := vaxis.New(opts)
+	os.Unsetenv("VAXIS_FORCE_XTWINOPS")
+	if lc != nil {
+		lc.setAfter(nil)
+	}
 	if err != nil {
-		panic(err)
+		if !withSize {
+			panic(err)
+		}
+		// start-up failed although the terminal answered every request
+		obs := make([]qobsT, len(acts))
+		for i := range obs {
+			obs[i] = qobsT{Rc: -5, Keys: []int{}, Rel: [][2]int{}}
+		}
+		if startup {
+			obs[0].Rc = -1
+		}
+		return obs, "New failed: " + err.Error()
 	}
 	r := &qrun{vx: vx, fc: fc, base: base}
 	r.settle()
 	if !(vx.CanReportBackgroundColor() && vx.CanReportForegroundColor() && vx.CanReportColor()) {
 		panic("query scenarios: start-up did not establish the colour capabilities")
 	}
+	if withSize {
+		if st := vx.VerifC03State(); !st.Xtwinops {
+			panic("query scenarios: VAXIS_FORCE_XTWINOPS did not take effect")
+		}
+	}
 	fc.AutoReply = false
 	fc.WriteHook = r.hook
 	var obs []qobsT
 	for i, a := range acts {
 		o := qobsT{Rc: -3}
+		if i == 0 && startup {
+			// the request was New's: what came of it is the first Resize event
+			obs = append(obs, qobsT{Rc: sizeRc(r.sizes), Keys: []int{}, Rel: [][2]int{}})
+			continue
+		}
+		r.sizes = nil
 		switch a.Kind {
 		case "query":
 			if a.M == 0 {
 				r.mu.Lock()
-				r.early, r.reply = []byte(qQuery[a.Q]), qReply(a.Q, a.V)
+				r.early, r.reply, r.esize = []byte(qQuery[a.Q]), qReply(a.Q, a.V), 0
+				if a.Q == "size" {
+					r.esize = a.V
+				}
 				r.mu.Unlock()
 			}
 			q := r.start(i, a.Q)
@@ -451,6 +593,9 @@ func runQueryScenario(acts []qact) ([]qobsT, string) {
 			}
 			r.mu.Unlock()
 			o.Keys = r.settle()
+			if a.Q == "size" && o.Rc != -2 {
+				o.Rc = sizeRc(r.sizes)
+			}
 			o.Rel = r.released()
 			if o.Rc == -2 {
 				r.blocked = append(r.blocked, q)
@@ -560,6 +705,10 @@ func randomQueryScenario(cfg *hx.Config) []qact {
 			if k == "cpr" {
 				v = (2+r.Intn(18))*256 + 1 + r.Intn(30)
 			}
+			if k == "size" {
+				// never the size the screen has: every request of a scenario reports another number of rows
+				v = (6+len(acts))*256 + 1 + r.Intn(60)
+			}
 			if m == 2 && !qTimed(k) {
 				if owedColour[k] >= 1 {
 					m = 1
@@ -571,7 +720,7 @@ func randomQueryScenario(cfg *hx.Config) []qact {
 			}
 			acts = append(acts, qact{Kind: "query", Q: k, M: m, V: v})
 		case c < 14:
-			k := qKinds[r.Intn(len(qKinds))]
+			k := qReplyKinds[r.Intn(len(qReplyKinds))]
 			v := val
 			if k == "cpr" {
 				v = (2+r.Intn(18))*256 + 1 + r.Intn(30)
@@ -601,14 +750,15 @@ func queryStream(cfg *hx.Config) (*hx.Stream, []string) {
 		st.Viol, st.Known, st.KnownClass = "c10_query_violations_all", "c10_query_known", "stale-colour-reply"
 	}
 	var notes []string
+	startup := false
 	add := func(kind, class string, acts []qact) {
-		obs, note := runQueryScenario(acts)
+		obs, note := runQueryScenario(acts, startup)
 		runs := 1
 		// an expired offer is a legitimate behaviour of the code (its 10 ms / 50 ms timer fired before the
 		// driver let the caller continue: a busy machine), a lost early reply is not: the scenario is run
 		// again, up to five times, until no answered query of a timed kind comes back empty
 		for runs < 5 && suspicious(acts, obs) {
-			obs, note = runQueryScenario(acts)
+			obs, note = runQueryScenario(acts, startup)
 			runs++
 		}
 		if runs > 1 {
@@ -617,8 +767,11 @@ func queryStream(cfg *hx.Config) (*hx.Stream, []string) {
 		if note != "" {
 			notes = append(notes, kind+": "+note)
 		}
-		c := qcaseJS{Acts: acts, Obs: obs, Class: class, Kind: kind, Runs: runs}
+		c := qcaseJS{Acts: acts, Obs: obs, Class: class, Kind: kind, Runs: runs, Startup: startup, Note: note}
 		tags := []string{kind}
+		if startup {
+			tags = append(tags, "startup-size-request-early")
+		}
 		nontriv := kind != "random"
 		for _, a := range acts {
 			switch a.Kind {
@@ -650,6 +803,9 @@ func queryStream(cfg *hx.Config) (*hx.Stream, []string) {
 		if k == "cpr" {
 			v, w = cp(3, 7+i), cp(4, 9)
 		}
+		if k == "size" {
+			v, w = 20*256+50, 21*256+51
+		}
 		add("directed-early", "", []qact{q(k, 0, v), key(1), q(k, 0, w)})
 		add("directed-prompt", "", []qact{q(k, 1, v), q(k, 1, w), key(2)})
 		if qTimed(k) {
@@ -673,6 +829,21 @@ func queryStream(cfg *hx.Config) (*hx.Stream, []string) {
 	add("known-stale-colour-reply", "stale-colour-reply", []qact{rp("bg", 601), q("bg", 0, 602), q("bg", 1, 603)})
 	add("known-stale-colour-reply", "stale-colour-reply", []qact{q("fg", 1, 611), rp("fg", 612), key(6), q("fg", 1, 613)})
 	add("known-stale-colour-reply", "stale-colour-reply", []qact{rp("col", 621), rp("col", 622), q("col", 1, 623), q("col", 0, 624)})
+	// the size request (VAXIS_FORCE_XTWINOPS, terminal reporting characters and pixels): a resize asked
+	// for by another goroutine is applied — a Resize event with the size the terminal reports — whenever
+	// the terminal answers, early (handled before the requester waits) or while the requester waits;
+	// it is lost only when the terminal does not answer.  A size report at rest is not generated: the
+	// report's value travels in nextSize, not in the channel, and the LTS has no such variable.
+	sz := func(rows, cols int) int { return rows*256 + cols }
+	add("directed-size-early", "", []qact{q("size", 0, sz(30, 100)), key(1), q("size", 0, sz(10, 40)), q("size", 0, sz(50, 132))})
+	add("directed-size-prompt", "", []qact{q("size", 1, sz(7, 20)), q("size", 1, sz(8, 21)), key(2), q("size", 0, sz(9, 22))})
+	add("directed-size-never", "", []qact{q("size", 2, 0), key(3), q("size", 0, sz(12, 33)), q("size", 2, 0), q("size", 1, sz(13, 34))})
+	add("directed-size-mixed", "", []qact{q("bg", 0, 711), q("size", 0, sz(11, 17)), q("cpr", 0, cp(2, 3)), q("size", 1, sz(12, 18)), f3(2), q("clip", 0, 712), q("size", 0, sz(14, 19)), q("cpr", 2, 0), q("size", 0, sz(15, 20))})
+	// ... and the same request made by New: answered early, start-up succeeds with that size
+	startup = true
+	add("directed-size-startup-early", "", []qact{q("size", 0, sz(24, 80))})
+	add("directed-size-startup-early", "", []qact{q("size", 0, sz(7, 33)), q("size", 0, sz(9, 40)), key(4), q("size", 1, sz(10, 41))})
+	startup = false
 	// mixed
 	add("directed-mixed", "", []qact{q("bg", 0, 701), q("cpr", 0, cp(2, 3)), q("clip", 0, 702), q("fg", 1, 703), q("col", 0, 704), f3(2), q("cpr", 2, 0), f3(2)})
 
@@ -681,7 +852,14 @@ func queryStream(cfg *hx.Config) (*hx.Stream, []string) {
 		nRandom = 1200
 	}
 	for i := 0; i < nRandom; i++ {
-		add("random", "", randomQueryScenario(cfg))
+		acts := randomQueryScenario(cfg)
+		if cfg.Rand.Intn(8) == 0 {
+			// ... preceded by New's own size request, answered early
+			startup = true
+			acts = append([]qact{q("size", 0, sz(20+cfg.Rand.Intn(10), 40+cfg.Rand.Intn(60)))}, acts...)
+		}
+		add("random", "", acts)
+		startup = false
 	}
 	return st, notes
 }
